@@ -387,8 +387,16 @@ class tridonic(hid):
 
     def _initialise_device(self):
         # Read firmware version; pick up the reply in _handle_read
-        os.write(self._f, self._cmd(
-            tridonic._CMD_INIT, tridonic._CMD_INIT_READVERSION))
+        self._write_init(tridonic._CMD_INIT_READVERSION)
+
+    def _write_init(self, what):
+        try:
+            os.write(self._f, self._cmd(tridonic._CMD_INIT, what))
+        except OSError:
+            # The device has failed during initialisation
+            self._log.debug("fail on transmit, disconnecting")
+            asyncio.get_running_loop().call_soon(
+                self.disconnect, True)
 
     async def _power_supply(self, supply_on):
         await self.connected.wait()
@@ -638,8 +646,7 @@ class tridonic(hid):
             if not self.firmware_version:
                 self.firmware_version = f"{data[3]}.{data[4]}"
                 # Now read the serial number
-                os.write(self._f, self._cmd(
-                    tridonic._CMD_INIT, tridonic._CMD_INIT_READSERIAL))
+                self._write_init(tridonic._CMD_INIT_READSERIAL)
             elif not self.serial:
                 self.serial = _hex(data[1:5])
                 self.connected.set()
